@@ -40,7 +40,7 @@ elif req['mode'] == 'collection':
     for item in req['items']:
         try:
             mc = MosCollection.from_strings(item['docs'], allow_incomplete=item['inc'])
-            out.append(['ok', mc.ro.message_id, [[mr.message_id, mr.mos_type.__name__] for mr in mc.mos_readers]])
+            out.append(['ok', mc.ro.message_id, [[mr.message_id, mr.mos_type.__name__] for mr in mc.mos_readers], type(mc.ro).__name__])
         except Exception as e:
             out.append(['err', type(e).__name__])
 json.dump(out, sys.stdout)
